@@ -126,12 +126,13 @@ CLAIMED.update({
               "short-form text-row reader stops exactly at the closing quote and returns the label, that number rows come back as "
               "written, that the entry loops of an interval / point tier block of any length return exactly the written entries, and "
               "that the long-form greedy quoted group is the escaped label; whole files: parsing what the short writer / the long writer "
-              "printed returns every tier, name, span and entry (C01_short_file_roundtrip, C01_long_file_roundtrip; the keyword chunking "
-              "is a decidable side condition evaluated on every generated case, the fields inside a block are located by proof).  The "
+              "printed returns every tier, name, span and entry (C01_short_file_roundtrip, C01_long_file_roundtrip and their _unconditional "
+              "forms: the keyword chunking is proved for names and labels free of the format's keywords, and is a decidable side condition "
+              "evaluated on every generated case otherwise; the fields inside a block are located by proof).  The "
               "bit-identity / near-integer clause for times, the fixed-point clause and the JSON formats are decided on the real Textgrid.save / openTextgrid; "
               "written text and parsed dictionary are compared with the writer and reader models inside Coq.",
               "Coq proof (strong induction over quote runs, list induction) + in-Coq differential correspondence of writer and reader models + round trip on the implementation",
-              "5/C01", "partial: the keyword chunking of a file (re.split at the class / item / entry keywords) is a decidable hypothesis evaluated per case, and the number layer (repr/float round trip, isclose 1e-14) is evaluated, not proved; numbers are opaque tokens."),
+              "5/C01", "partial: for names/labels that contain the format's keywords the chunking of a file is a decidable hypothesis evaluated per case; the number layer (repr/float round trip, isclose 1e-14) is evaluated, not proved; numbers are opaque tokens."),
     "C02": _c("Proof: Props/C02.v shows that the specification reader reads EVERY file the short writer or the long writer prints to exactly the "
               "data (C02_spec_reader_short_file / _long_file: any names and labels incl. the formats' own keywords, any number of tiers and "
               "entries; declared sizes = items, nothing left over), that it decodes the string token written for any name or label to exactly "
